@@ -19,10 +19,21 @@ IMAGES = {"cat.jpg": None}
 
 
 def _image_bytes(name: str) -> bytes:
+    """Image data per file name: the shipped cat.jpg, followed (for other names) by a trailer that makes every image's
+    bytes and length distinct (bytes after the JPEG end marker are ignored by viewers)."""
     if IMAGES.get(name) is None:
         with open(os.path.join(FIXTURE_DIR, "cat.jpg"), "rb") as fh:
-            IMAGES[name] = fh.read()
+            data = fh.read()
+        if name != "cat.jpg":
+            data += name.encode("utf-8") * (3 + len(name) % 5)
+        IMAGES[name] = data
     return IMAGES[name]
+
+
+def _image_id(data) -> tuple:
+    import hashlib
+
+    return None if data is None else (len(data), hashlib.sha1(bytes(data)).hexdigest()[:12])  # noqa: S324
 
 
 def style_snapshot(style) -> dict:
@@ -39,7 +50,7 @@ def style_snapshot(style) -> dict:
     return {
         "alignment": (H_NAMES.get(int(al.horizontal), al.horizontal), V_NAMES.get(int(al.vertical), al.vertical)),
         "bg_color": bgv,
-        "bg_image": None if img is None else (img.filename, len(img.data) if img.data is not None else None),
+        "bg_image": None if img is None else (img.filename, _image_id(img.data)),
         "font_color": tuple(style.font_color),
         "font_size": style.font_size,
         "font_name": style.font_name,
@@ -66,7 +77,7 @@ def expected_style(attrs: dict) -> dict:
         if e[k] is not None:
             e[k] = tuple(e[k])
     if e["bg_image"] is not None:
-        e["bg_image"] = (e["bg_image"], len(_image_bytes(e["bg_image"])))
+        e["bg_image"] = (e["bg_image"], _image_id(_image_bytes(e["bg_image"])))
     return e
 
 
